@@ -59,6 +59,10 @@ def run_reference(case, items, file, evalfn, max_paths=400, ref_files=None):
         ign = E.flag(it, case.ignore, 'ignore_include')
         if not isinstance(ign, bool):
             ign = it.decide(ign, 'ref_ignore')
+        st.rd = E.depth(it, case.resolve_depth, 'resolve_depth')
+        st.idp = E.depth(it, case.include_depth, 'include_depth')
+        if case.entry == 'str' and ppref._gt_limit(st, st.idp):
+            return ('err', 'ExceedRecursiveLimit', None, 0, [])
         try:
             evalfn(st, items, file, strip, ign)
         except RefError as e:
